@@ -292,8 +292,22 @@ fn outer_kinds(orig_positions: &[(u32, u32)], n_index: u32, other_index: Option<
 }
 
 pub fn worker(tier: &str, k: usize, n: usize, ctx: &mut Ctx) {
-  let thorough = tier == "thorough";
   let mut st = Striper::new(k, n);
+  for_each_combined_term(tier, &mut st, &mut |t| {
+    crate::set_current_case(t);
+    ctx.begin_case(|| serde_json::to_string(t).unwrap());
+    ctx.states += 1;
+    ctx.sample(100_000, 3, || json!({"term": case_json(t)}));
+    c09_case(ctx, t);
+  });
+  crate::clear_current_case();
+}
+
+/// The (generated text, outer map, original text, inner map, options) family of C09, also used by
+/// C11. Every fifth inner list additionally comes in a variant where the inner map's first source
+/// carries the NAME (and content) of one of the outer map's other sources.
+pub fn for_each_combined_term(tier: &str, st: &mut Striper, visit: &mut dyn FnMut(&Term)) {
+  let thorough = tier == "thorough";
   let gens: &[&str] = if thorough { &["ab\n", "a\nb", "abc", "a;b\nc"] } else { &["ab\n", "a\nb", "abc"] };
   // (original text, contents of the inner map's sources)
   let originals: &[&str] = &["ab\nc", "xy\nab"];
@@ -338,19 +352,26 @@ pub fn worker(tier: &str, k: usize, n: usize, ctx: &mut Ctx) {
                   .map(|s| if *s == INNER_NAME { if given { String::new() } else { original.to_string() } } else { format!("content of {s}\nl2") })
                   .collect();
                 om.contents = Some(contents);
-                let t = Term::Sms(Box::new(SmsSpec {
-                  value: gen.to_string(),
-                  name: INNER_NAME.to_string(),
-                  map: om,
-                  original_source: given.then(|| original.to_string()),
-                  inner: Some(im),
-                  remove,
-                }));
-                crate::set_current_case(&t);
-                ctx.begin_case(|| serde_json::to_string(&t).unwrap());
-                ctx.states += 1;
-                ctx.sample(100_000, 3, || json!({"term": case_json(&t)}));
-                c09_case(ctx, &t);
+                let mk = |im: MapSpec| {
+                  Term::Sms(Box::new(SmsSpec {
+                    value: gen.to_string(),
+                    name: INNER_NAME.to_string(),
+                    map: om.clone(),
+                    original_source: given.then(|| original.to_string()),
+                    inner: Some(im),
+                    remove,
+                  }))
+                };
+                visit(&mk(im.clone()));
+                // a source of the inner map that the outer map lists as well (same name, same content)
+                if other.is_some() && ii % 5 == 0 && inner_has_content {
+                  let mut im2 = im.clone();
+                  im2.sources[0] = "o1".into();
+                  if let Some(c) = im2.contents.as_mut() {
+                    c[0] = "content of o1\nl2".into();
+                  }
+                  visit(&mk(im2));
+                }
               }
             }
           }
@@ -358,7 +379,6 @@ pub fn worker(tier: &str, k: usize, n: usize, ctx: &mut Ctx) {
       }
     }
   }
-  crate::clear_current_case();
 }
 
 /// Dense inner maps: one segment on (nearly) every character of a longer original text, each with
